@@ -146,6 +146,12 @@ Definition dec_nsec (s : sexp) : option nsec :=
       do k' <- kind_of_name k; do h' <- dec_str h; do its' <- as_list_of dec_nitem its; Some (NItems k' h' its')
   | SList [SStr "adm"; h; ls] => do h' <- dec_str h; do ls' <- dec_strs ls; Some (NAdm h' ls')
   | SList [SStr "deprecated"; h; v; ls] => do h' <- dec_str h; do v' <- dec_str v; do ls' <- dec_strs ls; Some (NDeprecated h' v' ls')
+  | SList [SStr "examples"; tr; h; chs] =>
+      do tr' <- as_bool tr; do h' <- dec_str h;
+      do chs' <- as_list_of (fun s => match s with
+                                      | SList [b; ls] => do b' <- as_bool b; do ls' <- dec_strs ls; Some (b', ls')
+                                      | _ => None end) chs;
+      Some (NExamples tr' h' chs')
   | _ => None
   end.
 
